@@ -376,6 +376,8 @@ func genC14Bare(d *Draw) Case {
 	defs.Signals = []string{"s1", "s2", "sX"}
 	defs.Messages = []string{"m1", "m2", "mX"}
 	all := []EventDef{{Kind: "signal", Ref: "s1"}, {Kind: "message", Ref: "m1"}, {Kind: "signal", Ref: "s2"}, {Kind: "message", Ref: "m2"}}
+	defs.Escalations = []string{"e1"}
+	defs.Errors = []string{"x1"}
 	nd := 1 + d.N(4)
 	cm := &Node{ID: "CM", Kind: "catch", Parallel: d.N(3) != 0}
 	cm.Relaxed = cm.Parallel
@@ -553,6 +555,28 @@ func genC14(d *Draw) Case {
 	c.Prog = &Program{Defs: defs, Vars: map[string]any{"never": false}, Desc: fmt.Sprintf("catch defs=%v parallelMultiple=%v activations<=%d events=%v", dd, cm.Parallel, acts, evd)}
 	c.Picks = drawPicks(d, 40)
 	c.Meta = map[string]int{"parallel": b2i(cm.Parallel), "ndefs": nd}
+	if d.N(3) == 2 {
+		// two of the definitions are an escalation and an error definition instead (the references keep their names)
+		swap := map[string]EventDef{"s2": {Kind: "escalation", Ref: "e1"}, "m2": {Kind: "error", Ref: "x1"}}
+		for i, e := range cm.Events {
+			if nw, ok := swap[e.Ref]; ok {
+				cm.Events[i] = nw
+				c.Meta["esc"] = 1
+			}
+		}
+		if th := g.Node("TH"); th != nil {
+			for i, e := range th.Events {
+				if nw, ok := swap[e.Ref]; ok {
+					th.Events[i] = nw
+				}
+			}
+		}
+		for i, e := range c.Events {
+			if nw, ok := swap[e.Ref]; ok {
+				c.Events[i].Kind, c.Events[i].Ref = nw.Kind, nw.Ref
+			}
+		}
+	}
 	nestEvents(d, c)
 	return c
 }
@@ -659,6 +683,7 @@ func checkC14(cc Case, r *simrt.Result) *Outcome {
 	probe(o, "concurrent-deliveries", concurrent && !burst)
 	probe(o, "burst-behind-a-stalled-node", burst)
 	probe(o, "process-without-activities", c.Meta["bare"] == 1)
+	probe(o, "escalation-and-error-definitions-among-them", c.Meta["esc"] == 1)
 	probe(o, "event-nodes-inside-sub-process", c.Meta["nested"] > 0)
 	o.Sample = map[string]any{"program": c.Prog.Desc, "matches_per_definition": matches, "fires": fires}
 	return o
